@@ -308,6 +308,23 @@ func init() {
 func runC03(c *eng.Ctx) {
 	cr := &caseRunner{c: c, prop: "C03"}
 	defer func() {
+		// transient registrations whose constructors share their code, resolved so that one
+		// resolution is still building its dependencies while the other runs completely: every
+		// request must be served by a fresh run of ITS OWN constructor
+		for _, kind := range []string{"closures", "method-values"} {
+			idx, mine := cr.next()
+			if !mine {
+				continue
+			}
+			c.R.Begin(idx)
+			fs, n := overlappingSharedCode(kind, godi.Transient)
+			for _, f := range fs {
+				c.R.Violation(eng.Violation{Prop: "C03", Clause: "ctor-count", Sig: "C03/ctor-count:transient:shared-code-under-overlap:" + kind, Case: idx, CaseID: "funckind-overlap-" + kind,
+					Detail: "the request was not served by a run of its own constructor: " + f.Detail})
+			}
+			c.R.Count("shared_code_overlapping_resolutions", int64(n))
+			c.R.End(idx, eng.Hash("c03-funckind-overlap", kind), n > 0)
+		}
 		if C03Concurrent != nil {
 			C03Concurrent(c, cr.next)
 		}
